@@ -80,6 +80,21 @@ let handle (toks : string list) : string =
        let rv = String.concat ";" (List.map (fun c ->
            string_of_int c ^ ":" ^ String.concat "." (List.rev_map (fun v -> string_of_int (int_of_nat v)) (st.d_chs (nat_of_int c)).c_recvd)) chans) in
        Printf.sprintf "accepted d=%d nsent=%s recv=%s panicked=%b" (List.length st.d_log) ns rv st.d_panicked)
+  | "krun" :: ls ->
+    (* SubscriptionScope: accepted closed=<b> tracked=<n> unsub=<ids of added subscriptions whose Unsubscribe returned> *)
+    let kparse tok = match String.split_on_char ':' tok with
+      | ["tnil"; x] -> KTrackNil (nat x) | ["tadd"; x] -> KTrackAdd (nat x)
+      | ["cskip"; k] -> KCloseSkip (nat k) | ["cbegin"; k] -> KCloseBegin (nat k)
+      | ["cunsub"; k; x] -> KCloseUnsub (nat k, nat x) | ["cdone"; k] -> KCloseDone (nat k)
+      | ["wunsub"; x] -> KWUnsub (nat x) | ["wdel"; x] -> KWDel (nat x)
+      | _ -> failwith ("bad klabel " ^ tok) in
+    (match krun_from kinit (List.map kparse ls) O with
+     | Inr n -> let i = int_of_nat n in "rejected " ^ string_of_int i ^ " " ^ List.nth ls i
+     | Inl st ->
+       let added = List.sort compare (List.map int_of_nat st.k_added) in
+       let un = List.filter (fun x -> st.k_unsubd (nat_of_int x)) added in
+       Printf.sprintf "accepted closed=%b tracked=%d added=%s unsub=%s" st.k_closed (List.length st.k_tracked)
+         (String.concat "." (List.map string_of_int added)) (String.concat "." (List.map string_of_int un)))
   | "mrun" :: ls ->
     (* TypeMux: accepted d=<deliveries> got=<s:p.p.p;...> (posts delivered to each subscription, sorted: concurrent Posts have no common order) panicked=<b> *)
     (match mrun_from minit (List.map mparse ls) O with
